@@ -32,7 +32,6 @@ var stableStates = map[string]bool{
 	"sync.Mutex.Lock":         true,
 	"sync.RWMutex.RLock":      true,
 	"sync.RWMutex.Lock":       true,
-	"semacquire":              true,
 	"sync.WaitGroup.Wait":     true,
 	"chan receive (nil chan)": true,
 	"chan send (nil chan)":    true,
@@ -119,15 +118,13 @@ func (q *Quiescer) Wait() bool {
 			runtime.Gosched()
 		}
 		q.Polls++
-		quiet := true
-		for _, g := range q.Snapshot() {
-			if !stableStates[g.State] {
-				quiet = false
-				break
+		if q.quietOnce() {
+			// confirm on a second snapshot: a fixed point does not change
+			runtime.Gosched()
+			q.Polls++
+			if q.quietOnce() {
+				return true
 			}
-		}
-		if quiet {
-			return true
 		}
 		if i > 200 {
 			time.Sleep(20 * time.Microsecond)
@@ -146,8 +143,31 @@ func (q *Quiescer) Wait() bool {
 // parked in a stable wait state (or gone).
 func (q *Quiescer) IsQuiet() bool {
 	q.Polls++
+	if !q.quietOnce() {
+		return false
+	}
+	runtime.Gosched()
+	return q.quietOnce()
+}
+
+// stable reports whether a goroutine is parked in a wait state that only another
+// goroutine's action can end. "semacquire" is also the wait reason of runtime-internal
+// semaphores (worldsema, gcsema: a goroutine starting a GC cycle blocks there while this
+// very snapshot stops the world), so it only counts when it is a WaitGroup.Wait (go1.23
+// parks WaitGroup waiters with that reason).
+func stable(g G) bool {
+	if stableStates[g.State] {
+		return true
+	}
+	if g.State == "semacquire" && strings.Contains(g.Stack, "sync.(*WaitGroup).Wait(") {
+		return true
+	}
+	return false
+}
+
+func (q *Quiescer) quietOnce() bool {
 	for _, g := range q.Snapshot() {
-		if !stableStates[g.State] {
+		if !stable(g) {
 			return false
 		}
 	}
